@@ -144,6 +144,20 @@ func genPrintFile(r *RNG, k int) *genFile {
 	if r.Chance(20) {
 		f.Includes = append(f.Includes, "funcdata.h")
 	}
+	// data sections reserved larger than their initialised entries, and one with no entries at all
+	for _, sec := range f.Sections {
+		if gl, ok := sec.(*ir.Global); ok && r.Chance(30) {
+			gl.Grow(gl.Size + 8*(1+r.Intn(6)))
+			parts = append(parts, "grown "+gl.Symbol.Name)
+		}
+	}
+	if r.Chance(10) {
+		eg := ir.NewStaticGlobal(fmt.Sprintf("bss%d", k))
+		eg.Attributes = attr.NOPTR
+		eg.Grow(8 * (1 + r.Intn(8)))
+		f.AddSection(eg)
+		parts = append(parts, "global without data "+eg.Symbol.Name)
+	}
 	g.F = f
 	g.Desc = strings.Join(parts, "; ")
 	return g
@@ -248,6 +262,26 @@ func c11(c *Ctx) {
 		idx := o.AddCase(Case{Key: "print:file", Desc: g.Desc, Input: map[string]any{"file": g.Desc, "text": string(out)}, Nontrivial: g.NumFuncs > 0})
 		rows = append(rows, "("+pfileCoq(g.F, cfg.GeneratedWarning())+",\n   "+cStr(string(out))+")")
 		nFuncs += g.NumFuncs
+		// every data section is declared once with its size (GLOBL sym, flags, $size), after its DATA lines
+		for _, sec := range g.F.Sections {
+			gl, ok := sec.(*ir.Global)
+			if !ok {
+				continue
+			}
+			want := fmt.Sprintf("$%d", gl.Size)
+			found := 0
+			for _, ln := range strings.Split(string(out), "\n") {
+				if strings.HasPrefix(ln, "GLOBL "+gl.Symbol.String()+",") || strings.HasPrefix(ln, "GLOBL "+gl.Symbol.String()+"(SB),") {
+					found++
+					if !strings.HasSuffix(strings.TrimSpace(ln), ", "+want) {
+						o.Plan.GoViolations = append(o.Plan.GoViolations, GoViolation{Key: "print:globl-size", Desc: fmt.Sprintf("case %d: data section %s has size %d but is declared as %q", idx, gl.Symbol.Name, gl.Size, ln), Replay: map[string]any{"file": g.Desc, "text": string(out)}})
+					}
+				}
+			}
+			if found != 1 {
+				o.Plan.GoViolations = append(o.Plan.GoViolations, GoViolation{Key: "print:globl-count", Desc: fmt.Sprintf("case %d: data section %s is declared %d times", idx, gl.Symbol.Name, found), Replay: map[string]any{"file": g.Desc, "text": string(out)}})
+			}
+		}
 		// the assembler accepts the text, and sees the same number of instructions per function
 		fn := filepath.Join(dir, fmt.Sprintf("f%d.s", k))
 		ob := filepath.Join(dir, fmt.Sprintf("f%d.o", k))
